@@ -902,3 +902,35 @@ Proof.
   apply (sections_cycles_all lz_compress cap be sigs ss vb3 e3 dt f Hall); [|exact Hdt|lia].
   apply (consistent_keys sigs vb vb3); [|exact Hc]. rewrite (finish_keys _ _ _ _ Ef). exact (run_effs_keys _ _ _ _ _ Er).
 Qed.
+
+(* non-vacuity of ghw_body_run: one std_logic signal and one integer; snapshot values '0' (byte 2) and 5; one cycle section
+   whose only cycle sets the std_logic to '1' (distance 1, byte 3) and the integer to -2 (distance 1, signed LEB128 7e);
+   an empty directory; a tailer *)
+Example ghw_body_example :
+  let sigs := [mk_gs GNine 0%nat None; mk_gs GLeb 1%nat None] in
+  let ps := [[2]; [5]] in
+  let c := mk_gcyc [(1, [3]); (1, [126])] [127] (-1)%Z in
+  let ss : list csec := [([10; 0; 0; 0; 0; 0; 0; 0], [c])] in
+  let dt := DIR ++ [0; 0; 0; 0] ++ [0; 0; 0; 0] ++ [] ++ EOD ++ TAI ++ [0; 0; 0; 0; 0; 0; 0; 0] ++ [] in
+  (exists effs, snap_effs sigs 0 ps = Some effs) /\ snap_ok sigs 0 ps /\ Forall (csec_ok sigs) ss /\ dir_tail_ok false dt /\
+  consistent sigs (mk_vb [] []).
+Proof.
+  cbn zeta. split; [eexists; vm_compute; reflexivity|]. split.
+  { cbn [snap_ok]. split; [|split; [|exact I]].
+    - intros info H. injection H as <-. exact I.
+    - intros info H. injection H as <-. cbn [payload_ok gs_tpe]. exists 5%Z. intros rest. reflexivity. }
+  split.
+  { constructor; [|constructor]. unfold csec_ok. cbn [fst snd]. split; [reflexivity|]. split; [discriminate|].
+    split.
+    { constructor; [|constructor]. intros rest. reflexivity. }
+    split.
+    { constructor; [|constructor]. cbn [gc_recs]. split; [|vm_compute; discriminate].
+      cbn [grecs_ok]. split; [lia|]. split; [lia|]. split.
+      - intros info H. vm_compute in H. injection H as <-. exact I.
+      - split; [lia|]. split; [lia|]. split; [|exact I].
+        intros info H. vm_compute in H. injection H as <-. cbn [payload_ok gs_tpe]. exists (-2)%Z. intros rest. reflexivity. }
+    split; [intros c0 []|cbn; lia]. }
+  split.
+  { exists [0; 0; 0; 0], [0; 0; 0; 0], [], [0; 0; 0; 0; 0; 0; 0; 0], []. repeat split; try reflexivity; cbn; lia. }
+  intros idx info vid Hi Hv. apply nth_error_In in Hi. destruct Hi as [<-|[<-|[]]]; discriminate.
+Qed.
